@@ -193,13 +193,15 @@ def lean_line(c, res):
     if c['routine'] == 'makefractalCIJ':
         n = 2 ** c['mx_lvl']
         P = np.array(res['thr']) if res.get('thr') is not None else np.zeros((n, n))
-        return 'makefractalCIJ n=%d k=0 mx=%d szcl=%d prob=%s draws=%s' % (n, c['mx_lvl'], c['sz_cl'], ','.join(thr_str(x) for x in P.ravel()), draws)
+        if not np.all(np.isfinite(P)):
+            return None
+        return 'makefractalCIJ n=%d k=0 mx=%d szcl=%d E=%d prob=%s draws=%s' % (n, c['mx_lvl'], c['sz_cl'], c['E'], ','.join(thr_str(x) for x in P.ravel()), draws)
     if c['routine'] == 'makerandCIJdegreesfixed':
         return '%s n=%d k=0 inv=%s outv=%s draws=%s' % (c['routine'], len(c['inv']), ','.join(map(str, c['inv'])) or '-',
                                                        ','.join(map(str, c['outv'])) or '-', ','.join(map(str, res['draws'])) or '-')
     s = '%s n=%d k=%d draws=%s' % (c['routine'], c['n'], c['k'], ','.join(map(str, res['draws'])) or '-')
     if c['routine'] == 'makeevenCIJ':
-        s += ' mx=%d szcl=%d' % (int(math.log2(c['n'])), c['sz_cl'])
+        s += ' mx=%d szcl=%d' % (int(math.floor(math.log2(c['n']))), c['sz_cl'])
     return s
 
 
@@ -229,6 +231,15 @@ def gen_cases(rs, tier):
         for r in ('makerandCIJ_dir', 'makerandCIJ_und', 'makeringlatticeCIJ'):
             cases.append({'routine': r, 'n': n, 'k': n * n + 3, 'seed': int(rs.randint(2 ** 31)), 'malformed': 'k-infeasible'})
     # even: n power of two, cluster size 2^sz_cl, every feasible K (clusters .. full)
+    # N = 2 (mx_lvl = 1) is a power of two: the template loop body never runs
+    for k in (0, 1, 2):
+        for s in (1,):
+            for _ in range(2):
+                cases.append({'routine': 'makeevenCIJ', 'n': 2, 'k': max(k, 2), 'sz_cl': s, 'seed': int(rs.randint(2 ** 31)), 'mx1': True})
+    # N not a power of two: the code shrinks it to 2**floor(log2 N) with a printed warning (no claim; the model's driver does the same)
+    for n, k, s in ((5, 9, 1), (6, 12, 2), (7, 5, 1), (12, 40, 2), (3, 2, 1)):
+        cases.append({'routine': 'makeevenCIJ', 'n': n, 'k': k, 'sz_cl': s, 'seed': int(rs.randint(2 ** 31)), 'malformed': 'n-not-power-of-two',
+                      'mx1': n < 4})
     for n in ((4, 8) if not big else (4, 8, 16)):
         for s in range(1, int(math.log2(n)) + 1):
             ncl = n * (2 ** s - 1)
@@ -250,11 +261,13 @@ def gen_cases(rs, tier):
                 for _ in range(2 if not big else seeds):
                     cases.append({'routine': 'maketoeplitzCIJ', 'n': n, 'k': k, 's': s, 'seed': int(rs.randint(2 ** 31))})
     # fractal
-    for mx in ((2, 3, 4) if not big else (2, 3, 4, 5)):
-        for E in (1, 2, 3):
+    for mx in ((1, 2, 3, 4) if not big else (1, 2, 3, 4, 5)):
+        for E in (1, 2, 3, 4):
             for s in range(1, mx + 1):
-                for _ in range(seeds):
-                    cases.append({'routine': 'makefractalCIJ', 'mx_lvl': mx, 'E': E, 'sz_cl': s, 'seed': int(rs.randint(2 ** 31))})
+                for _ in range(seeds if mx > 1 else 2):
+                    cases.append({'routine': 'makefractalCIJ', 'mx_lvl': mx, 'E': E, 'sz_cl': s, 'seed': int(rs.randint(2 ** 31)), 'mx1': mx == 1})
+    # E = 0 (1/0**ee = inf): outside the domain, must not upset the harness
+    cases.append({'routine': 'makefractalCIJ', 'mx_lvl': 2, 'E': 0, 'sz_cl': 1, 'seed': 1, 'malformed': 'E-zero'})
     # degrees fixed: graphical pairs = degree sequences of random simple digraphs, n <= 5 (+ the empty graph)
     for n in ((2, 3, 4, 5, 6) if not big else (2, 3, 4, 5, 6, 7, 8)):
         cases.append({'routine': 'makerandCIJdegreesfixed', 'inv': [0] * n, 'outv': [0] * n, 'seed': 1, 'graphical': True})
@@ -343,7 +356,7 @@ def main():
     ck = Check(PID)
     ck.cov['rule'] = ('cases: makerandCIJ_dir / makeringlatticeCIJ every (N,K) with 2<=N<=8(11), 0<=K<=N(N-1); makerandCIJ_und every K<=N(N-1)/2; 5 seeds each; '
                       'makeevenCIJ N in {4,8,(16)}, every cluster size and every feasible K; maketoeplitzCIJ N=3..6(8), K<=N(N-1)/2, s in {1,2,4}; '
-                      'makefractalCIJ levels 2..4(5), E in {1,2,3}; makerandCIJdegreesfixed on degree sequences of random simple digraphs N<=6(8), 40 % of them passed as int32 array / python list / strided view; '
+                      'makefractalCIJ levels 1..4(5), E in {1,2,3,4} (probabilities checked against 1/E^ee by the model); makeevenCIJ also N = 2 and non-powers of two; makerandCIJdegreesfixed on degree sequences of random simple digraphs N<=6(8), 40 % of them passed as int32 array / python list / strided view; '
                       'non-trivial = distinct case in which the generator returned a non-empty matrix')
     ck.assumptions += ['K feasible: K <= N(N-1) (N(N-1)/2 undirected), K >= number of cluster cells for makeevenCIJ, N a power of two >= 4 where required',
                        'maketoeplitzCIJ (10000 rejections) and makerandCIJdegreesfixed (repair loop) may give up with BCTParamError on in-domain input: reported as violations of the '
@@ -423,7 +436,10 @@ def main():
         if rt == 'makerandCIJdegreesfixed' and len(r['draws']) > sum(c['inv']):
             ck.count('degreesfixed:repair-loop-entered')
         if rt in MODELLED:
-            lines.append(lean_line(c, r)); idx.append(n_)
+            ln = lean_line(c, r)
+            if ln is None:
+                ck.count('not-replayed:non-finite-threshold'); continue
+            lines.append(ln); idx.append(n_)
     # a routine that hangs or raises on (almost) every input must not pass silently
     for rt in sorted(set(c['routine'] for c in cases)):
         rr = [r for c, r in zip(cases, results) if c['routine'] == rt and not c.get('malformed')]
